@@ -241,6 +241,9 @@ def run(rep):
     import c01_flow
     c01_flow.r3(rep, w)
     c01_flow.r5(rep, w)
+    if rep.tier == 'thorough':
+        import witness
+        witness.run_witnesses(rep, 'C01', ['W1StringConstructorIsPrivate', 'W3RootAsMutIsUnsafe', 'W4GcDanglingIsPrivate', 'W5HeapIsPrivate', 'W6GcIsReadOnly'])
 
 
 def r1(rep, w):
